@@ -11,13 +11,15 @@
 #define V_HMS(t) ((t).hms.h < 24 && (t).hms.m < 60 && (t).hms.s < 60)
 #define V_HMS24(t) (V_HMS(t) || ((t).hms.h == 24 && (t).hms.m == 0 && (t).hms.s == 0))
 
-/* floor division */
+#if defined VERIF_TU_TIME_CORE
+/* floor division (static in time-core.c) */
 #define PRE_divrem(n, mod) ((mod) >= 86399u && (mod) <= 86401u && (n) >= -800000 && (n) <= 800000)
 #define POST_divrem(ret, n, mod) \
 	((ret).rem < (mod) && (long long)(ret).div * (long long)(mod) + (long long)(ret).rem == (long long)(n))
 static struct divrem_s divrem(signed int n, unsigned int mod)
 CONTRACT(PRE_divrem(n, mod), POST_divrem(RV, n, mod));
 
+#endif
 /* add DURS seconds to a time of day; the day overflow goes to the 4-bit signed carry slot */
 #define PRE_dt_tadd_s(t, durs, corr) (V_HMS24(t) && (corr) == 0 && (durs) >= -7 * 86400 && (durs) <= 6 * 86400)
 #define POST_dt_tadd_s(ret, t, durs, corr) \
